@@ -225,7 +225,7 @@ def classFactory (Γ : Ctx) (clazz : ClassId) (params : Params) : Except Err Val
   | none => .error (.context "unknown class")
   | some ci =>
     if ci.fields.any (fun f => f.init && !f.hasDefault && !params.has f.name) then
-      .error (.leaked "TypeError")      -- missing required positional argument
+      .error (.parser "Failed to create")   -- the constructor's TypeError, reported as ParserError
     else .ok (.obj clazz params)
 
 /-! ### nodes -/
@@ -373,11 +373,8 @@ def bindObject (m : XmlMeta) (ws : List (QN × List QN)) (params : Params) (qnam
   let (wrapper, ws') := popWrapper ws qname
   match qname with
   | none =>
-    -- `find_children(None)`: elements.get(None) misses, choices' `find_choice(None)` and the
-    -- wildcard lookup call `match_namespace(None)` → `split_qname(None)` → TypeError
-    if m.choices.any (fun c => !c.wildcards.isEmpty) || !m.wildcards.isEmpty then
-      throw (.leaked "TypeError")
-    else return (false, params, ws')
+    -- tail text of a child in non mixed content stays unassigned
+    return (false, params, ws)
   | some q =>
     let rec go : List XmlVar → Except Err (Bool × Params)
       | [] => .ok (false, params)
